@@ -185,6 +185,7 @@ type scenarioRun struct {
 	s    scenario
 	e    *env
 	seen map[string]bool
+	real *realScenario // set by the real-CU layer: the witness carries this scenario instead of s
 }
 
 func (r *scenarioRun) viol(key, what string, extra map[string]any) {
@@ -193,6 +194,9 @@ func (r *scenarioRun) viol(key, what string, extra map[string]any) {
 	}
 	r.seen[key] = true
 	w := map[string]any{"scenario": r.s}
+	if r.real != nil {
+		w = map[string]any{"real_scenario": *r.real}
+	}
 	for k, v := range extra {
 		w[k] = v
 	}
